@@ -314,10 +314,13 @@ def gen(repo):
     hid_src = cxxscan.function_body(src, "handleIncomingData")
     disp_plain = re.search(r"_threadPool\.tryEnqueue\(\s*\[this,\s*sid,\s*requestData\]\(\)\s*\{\s*processHttpRequest\(sid,\s*requestData\)\s*;\s*\}\s*\)", hid_src, re.S)
     disp_epoch = re.search(r"const\s+std::uint64_t\s+epoch\s*=\s*_transportEpoch\.load\(\)\s*;\s*if\s*\(\s*!\s*_threadPool\.tryEnqueue\(\s*\[this,\s*sid,\s*requestData,\s*epoch(?:,\s*haveUpgrade)?\]\(\)\s*\{\s*processHttpRequest\(sid,\s*requestData,\s*epoch(?:,\s*haveUpgrade)?\)\s*;\s*\}\s*\)", hid_src, re.S)
+    # the same guards, but the epoch is an expression INSIDE the lambda body: evaluated when a worker starts the task, not at dispatch
+    disp_late = re.search(r"_threadPool\.tryEnqueue\(\s*\[this,\s*sid,\s*requestData(?:,\s*haveUpgrade)?\]\(\)\s*\{\s*processHttpRequest\(sid,\s*requestData,\s*_transportEpoch\.load\(\)(?:,\s*haveUpgrade)?\)\s*;\s*\}\s*\)", hid_src, re.S)
     n_same = len(re.findall(r"sameTransport\(\)", php))
+    epoch_captured_at_dispatch = bool(disp_epoch)
     if disp_plain and not disp_epoch and n_same == 0 and "_transportEpoch" not in src:
         dispatch_checks_generation = False
-    elif disp_epoch and not disp_plain:
+    elif (disp_epoch or disp_late) and not disp_plain and not (disp_epoch and disp_late):
         # the worker compares the epoch captured at dispatch inside EVERY guarded block: 2 (shutdown arm) + upgrade send + response send/close + error send/close
         need(r"const\s+auto\s+sameTransport\s*=\s*\[this,\s*epoch\]\(\)\s*\{\s*return\s+_transportEpoch\.load\(\)\s*==\s*epoch\s*;\s*\}\s*;", php, "sameTransport helper")
         guards = len(re.findall(r"if\s*\(\s*_transport\s*(?:&&\s*!_shutdown\s*)?&&\s*sameTransport\(\)\s*\)", php))
@@ -330,7 +333,7 @@ def gen(repo):
             raise TranslateError("_transportEpoch: expected 5 occurrences (member, start(), dispatch capture, overload, helper), found %d" % len(re.findall(r"_transportEpoch", src)))
         dispatch_checks_generation = True
     else:
-        raise TranslateError("handleIncomingData: dispatch lambda shape not recognised (neither plain nor epoch-carrying)")
+        raise TranslateError("handleIncomingData: dispatch lambda shape not recognised (neither plain, nor carrying an epoch captured at dispatch, nor reading it in the lambda body)")
 
     # safety net
     sn = cxxscan.function_body(src, "invokeWithSafetyNet")
@@ -341,7 +344,7 @@ def gen(repo):
 
     # pool overflow
     hid = cxxscan.function_body(src, "handleIncomingData")
-    ov = need(r"if\s*\(\s*!\s*_threadPool\.tryEnqueue\(\s*\[this,\s*sid,\s*requestData(?:,\s*epoch)?(?:,\s*haveUpgrade)?\]\(\)\s*\{\s*processHttpRequest\(sid,\s*requestData(?:,\s*epoch)?(?:,\s*haveUpgrade)?\)\s*;\s*\}\s*\)\s*\)\s*\{(.*?)\}\s*else\s+if", hid, "tryEnqueue dispatch").group(1)
+    ov = need(r"if\s*\(\s*!\s*_threadPool\.tryEnqueue\(\s*\[this,\s*sid,\s*requestData(?:,\s*epoch)?(?:,\s*haveUpgrade)?\]\(\)\s*\{\s*processHttpRequest\(sid,\s*requestData(?:,\s*(?:epoch|_transportEpoch\.load\(\)))?(?:,\s*haveUpgrade)?\)\s*;\s*\}\s*\)\s*\)\s*\{(.*?)\}\s*else\s+if", hid, "tryEnqueue dispatch").group(1)
     ovm = need(r"sendErrorResponse\(\s*sid\s*,\s*(\d+)\s*,\s*\"([^\"]*)\"\s*,\s*\"([^\"]*)\"\s*(?:,\s*isHeadRequest\(requestData\)\s*)?\)\s*;", ov, "overflow response")
     ser = cxxscan.function_body(src, "sendErrorResponse")
     ser_hdrs = set_headers(ser, "errorRes")
@@ -422,6 +425,8 @@ def gen(repo):
     t += "def stopDrainSeconds : Nat := %d\n" % drain_s
     t += "/-- the task handed to the pool (`[this, sid, requestData]`) also carries and checks the identity of the transport its request\n    arrived on (false: it addresses its commands by session id only) -/\n"
     t += "def dispatchChecksGeneration : Bool := %s\n" % ("true" if dispatch_checks_generation else "false")
+    t += "/-- the epoch the worker compares is read by `handleIncomingData` (`const std::uint64_t epoch = _transportEpoch.load();` in front of\n    `tryEnqueue`) and captured BY VALUE into the pool lambda (true); false: `_transportEpoch.load()` is an argument expression inside the\n    lambda body, evaluated when a worker starts the task — a request queued across stop() + start() gets the new epoch -/\n"
+    t += "def epochCapturedAtDispatch : Bool := %s\n" % ("true" if (dispatch_checks_generation and epoch_captured_at_dispatch) else "false")
     t += "/-- the error arm, the shutdown arm and `sendErrorResponse` clear the body when `isHeadRequest(requestData)` (raw request starts with\n    `HEAD `), after Content-Length was set (true); false: they never look at the method (the code before FC16f) -/\n"
     t += "def errorArmsStripHead : Bool := %s\n" % ("true" if error_arms_strip_head else "false")
     t += "end Iora.Gen.HttpRespond\n"
